@@ -585,6 +585,13 @@ def import_position(repo: Repo, rep):
     # string-constant expression statement and does not stop at it (an import in front of the docstring makes a following
     # `from __future__ import ...` a SyntaxError - the edit is applied after the ast.parse check)
     hdr = [lp for lp in body_nodes(f.node) if isinstance(lp, ast.For) and isinstance(lp.iter, ast.Attribute) and lp.iter.attr == "body" and any(isinstance(x, ast.Break) for x in ast.walk(lp))]
+    # (4) the header ends at the first statement that is neither the docstring nor an import: the loop that remembers the last header
+    # statement (`<last> = <loop variable>`) has a way out.  Without it the "last import" is the last import of the whole module - the new
+    # import lands behind code that may already use the name (a module-level snapshot(HasRepr(..)): NameError on import)
+    for lp in [x for x in body_nodes(f.node) if isinstance(x, ast.For) and isinstance(x.iter, ast.Attribute) and x.iter.attr == "body" and isinstance(x.target, ast.Name)]:
+        remembers = [a_ for a_ in ast.walk(lp) if isinstance(a_, ast.Assign) and isinstance(a_.value, ast.Name) and a_.value.id == lp.target.id]
+        if remembers and not any(isinstance(x, (ast.Break, ast.Return)) for x in ast.walk(lp)):
+            rep.violation("R-IMPORT-POSITION", f, lp, f"ensure_import walks *all* module-level statements for the place of the new import (no `break` at the first statement that is not an import): the import is put behind the last import of the whole module, i.e. behind code that can already use the name at import time", construct="ensure_import:header-unbounded")
     if hdr:
         doc_ifs = [t for t in ast.walk(hdr[0]) if isinstance(t, ast.If) and "ast.Expr" in norm(t.test) and ("ast.Constant" in norm(t.test) or "ast.Str" in norm(t.test))]
         if doc_ifs and not any(isinstance(y, (ast.Break, ast.Return)) for t in doc_ifs for s_ in t.body for y in ast.walk(s_)):
